@@ -101,6 +101,7 @@ type interpreter struct {
 	stdInitOK          map[string]bool
 	errorStringType    types.Type
 	lockMon            *lockMonitor
+	lenient            int // > 0 while formatting an error message (placeholders instead of symbolic formatting)
 	timeType           types.Type
 }
 
